@@ -247,6 +247,21 @@ def run(ctx):
         cases.append(("mp-multi", ("clang", "mp", False), b"out: " + b" ".join(D) + b"\n" + b" ".join(DD) + b":\n", ([b"out"], DD)))
         nrej += 15
 
+    # long lists (a translation unit with tens to hundreds of headers): a name mentioned again - as a dependency of a later rule, as a
+    # -MP rule of its own, or as a target with dependencies (rejected) - whichever place in the list it had the first time
+    for _ in range(150 if ctx.tier == "quick" else 3000):
+        n_ = rng.choice((20, 31, 32, 33, 34, 40, 64, 65, 100, 257))
+        L = [b"inc/h%03d%s.h" % (k_, bytes(rng.choice(b"abc_") for _q in range(rng.randint(0, 3)))) for k_ in range(n_)]
+        rng.shuffle(L)
+        pick = rng.choice((0, 1, n_ // 2, 30, 31, 32, 33, n_ - 2, n_ - 1, rng.randrange(n_)))
+        again = L[min(pick, n_ - 1)]
+        head = b"out.o: " + (b" \\\n  ".join(L) if rng.random() < 0.5 else b" ".join(L)) + b"\n"
+        cases.append(("long-repeat", ("clang", "long", False), head + b"out.o: " + again + b" extra.h\n", ([b"out.o"], L + [b"extra.h"])))
+        cases.append(("long-mp", ("clang", "long-mp", False), head + b"".join(x_ + b":\n" for x_ in L), ([b"out.o"], L)))
+        cases.append(("long-mp-one", ("clang", "long-mp", False), head + again + b":\n", ([b"out.o"], L)))
+        cases.append(("rej-in-has-ins-long", (), head + again + b": zz.h\n", "err:inputs may not also have inputs"))
+        nrej += 1
+
     # several compiler runs appended to one file (or -MP output followed by more rules): phony rules for dependencies listed
     # so far - with or without blanks before the end of the line, blank lines, CRLF - and then a rule that brings new ones
     for _ in range(1500 if ctx.tier == "quick" else 30000):
